@@ -161,6 +161,11 @@ def subjReqs (kind : Option String) : List (ReqAttr String) :=
   | some "subject-id" => [mk "subject-id"]
   | _ => []
 
+/-- The Code-of-Conduct categories whose items are pinned as ONLY_REQUIRED (Spec/C10.lean). -/
+def coco (k : String) : Bool :=
+  k == "http://www.geant.net/uri/dataprotection-code-of-conduct/v1" ||
+  k == "https://refeds.org/category/code-of-conduct/v2"
+
 def secName (c : Ctx String String) : String :=
   let g := secOf c.secs
   if (g c.sp).isSome then "sp"
@@ -177,12 +182,15 @@ def features (c : Ctx String String) (identity : Ava String) (required optional 
   let reqs := required ++ optional
   let branch : List String :=
     match entR with
-    | .error _ => ["cats-crash"]
+    | .error _ => ["cats-crash"] ++
+        (if required.any (fun d => (d.friendlyName.filter S.truthy).isNone && d.nameFormat.isNone) then ["cats-crash-no-name-format"] else [])
     | .ok _ =>
       if cats then
         let entries := (entCatsOf c.section).getD [] |>.flatten
         let rn := reqNames S c.acs required
         ["cats"] ++
+        (if entries.any (fun e => e.key == .always && !e.attrs.isEmpty) then ["cat-always"] else []) ++
+        (if required.any (fun d => (d.friendlyName.filter S.truthy).isNone) then ["cat-required-name-via-map"] else []) ++
         (if entries.any (fun e => e.onlyRequired && e.key != .always && e.key.applies c.spCats) then ["cat-only-required"] else []) ++
         (if entries.any (fun e => entryResets S c.spCats rn e) then ["cat-no-aggregation"] else []) ++
         (if entries.any (fun e => match e.key with | .all _ => e.key.applies c.spCats | _ => false) then ["cat-tuple"] else []) ++
@@ -204,8 +212,16 @@ def features (c : Ctx String String) (identity : Ava String) (required optional 
         (if fns.any (fun f => fns.count f > 1 && (match dget identity f with | some (.scalar _) => true | _ => false)) then ["req-scalar-repeat"] else []) ++
         (if ms.any (fun m => match m.2 with
             | some f => f != localName S c.acs m.1 && f != S.lower m.1.name
-            | none => false) then ["req-case-insensitive-match"] else [])
-      else ["nofilter"]
+            | none => false) then ["req-case-insensitive-match"] else []) ++
+        (if reqs.any (fun q => ((getLocalName c.acs (S.lower q.name) q.nameFormat).filter S.truthy).isSome) then ["req-name-via-map"] else []) ++
+        (if reqs.any (fun q => ((getLocalName c.acs (S.lower q.name) q.nameFormat).filter S.truthy).isNone &&
+            (q.friendlyName.filter S.truthy).isSome) then ["req-name-via-friendly"] else []) ++
+        (if ms.any (fun m => m.2.isSome && ((matchKey S (localName S c.acs m.1) identity).filter S.truthy).isNone) then ["req-match-by-name"] else []) ++
+        (if ms.any (fun m => m.2.isSome && (identity.any (fun p => p.1 == localName S c.acs m.1))) then ["match-exact"] else []) ++
+        (if ms.any (fun m => m.2.isSome && !(identity.any (fun p => p.1 == localName S c.acs m.1)) &&
+            identity.any (fun p => p.1 == S.lower (localName S c.acs m.1))) then ["match-lower"] else []) ++
+        (if (failOnOf c.section) then ["fail-on-missing"] else ["no-fail-on-missing"])
+      else ["nofilter"] ++ (if (entCatsOf c.section).isSome && !c.hasMds then ["cats-configured-no-mds"] else [])
   let restr : List String :=
     match c.section.bind (Section.compiledRestr S) with
     | none => ["norestr"]
@@ -248,8 +264,8 @@ def handle (line : Json) : Json :=
     Json.mkObj [("model", Json.mkObj [("out", outToJson m), ("unchanged", true)]),
       ("path", Json.str (op ++ "/" ++ secN ++ "/" ++ branch ++ "/" ++ (match m with | .ok _ => "ok" | .error e => errStr e))),
       ("features", jstrs feats),
-      ("spec_model", specFilter c identity required optional m),
-      ("spec_impl", specFilter c identity required optional iv && unchanged)]
+      ("spec_model", specFilter c identity required optional m && cocoPinned coco c required m),
+      ("spec_impl", specFilter c identity required optional iv && cocoPinned coco c required iv && unchanged)]
   else
     -- `attribute_requirement`: isRequired="true" entries are required, all others optional
     let ras := arrD md "ras"
@@ -266,7 +282,8 @@ def handle (line : Json) : Json :=
       let selfM : Json := match m with | .ok a => avaToJson (selfAfter identity a) | .error _ => avaToJson identity
       let selfOk := if op == "apply_policy" then
           (match iv with
-           | .ok _ => specRestrict c identity required optional subj (.ok (parseAva (arrD impl "self")))
+           | .ok _ => specRestrict c identity required optional subj (.ok (parseAva (arrD impl "self"))) &&
+                      cocoPinned coco c req' (.ok (parseAva (arrD impl "self")))
            | .error _ => true)
         else true
       let mj := if op == "apply_policy" then Json.mkObj [("out", outToJson m), ("self", selfM), ("unchanged", true)]
@@ -274,13 +291,17 @@ def handle (line : Json) : Json :=
       Json.mkObj [("model", mj),
         ("path", Json.str (op ++ "/" ++ secN ++ "/" ++ branch ++ "/" ++ (match m with | .ok _ => "ok" | .error e => errStr e))),
         ("features", jstrs feats),
-        ("spec_model", specRestrict c identity required optional subj m),
-        ("spec_impl", specRestrict c identity required optional subj iv && selfOk && unchanged)]
+        ("spec_model", specRestrict c identity required optional subj m && cocoPinned coco c req' m),
+        ("spec_impl", specRestrict c identity required optional subj iv && cocoPinned coco c req' iv && selfOk && unchanged)]
     else if op == "authn_response" || op == "attribute_response" then
       let m := if op == "authn_response" then authnRelease c identity required optional subj (boolD cs "best_effort" false)
                else attributeRelease c identity required optional subj
       let iv := parseRel impl
       let inner := policyRestrict c identity required optional subj
+      let pinnedRel : Release.Release String → Bool := fun o =>
+        match o with
+        | .assertion a => cocoPinned coco c req' (.ok a)
+        | _ => true
       let outcome := match m, inner with
         | .assertion _, .error .missing => "unfiltered"
         | .assertion _, _ => "assertion"
@@ -290,8 +311,8 @@ def handle (line : Json) : Json :=
         ("path", Json.str (op ++ "/" ++ secN ++ "/" ++ branch ++ "/" ++ outcome)),
         ("features", jstrs feats),
         ("inner", outToJson inner),
-        ("spec_model", specResponse c identity required optional subj m),
-        ("spec_impl", specResponse c identity required optional subj iv && unchanged)]
+        ("spec_model", specResponse c identity required optional subj m && pinnedRel m),
+        ("spec_impl", specResponse c identity required optional subj iv && pinnedRel iv && unchanged)]
     else Json.mkObj [("proto_error", Json.str ("unknown op " ++ op))]
 
 def main : IO Unit := serve handle
